@@ -8,7 +8,7 @@ from spec import step_model as M
 PROPERTY = "C04"
 BOUNDS = {
     "quick": "one step from every built pre-state: 0..1 registry node (id sym [10,99]) with 0..1 child (id sym [10,99]) and 0..1 stored value (type sym [0,9]); event node sym [10,99], child sym [10,99] or 255, command per partition, type sym [0,9]; plus 'boundary' partitions per version and command with node ids from {0,255} and child ids from {0,254,255} (concrete picks), and a 'digits' partition per version: set message, node+child present, all four ids sym [0,255] (all digit classes, 0/254/255 boundaries) (set/req/presentation) or from the list {0,5,9,11,12,18,21,22,32} (internal) / sym [0,5] (stream); payload symbolic |p|<=1 (battery/heartbeat: class lists of 16/10 texts through the real float()/int()); step/boundary partitions on versions 1.4, 2.0, 2.2 (1.5 and 2.1 only subclass their predecessor, C19 checks the equivalence), digits and order partitions on all 5; 2-line histories through one listen() generator",
-    "thorough": "quick on all 5 versions, plus A: all ids sym [0,255] (every digit class) with 0..1 node / 0..1 child, plus B: ids sym [10,99] with 0..2 registry nodes, 0..2 children each, types sym [0,40]; 3-line histories",
+    "thorough": "quick on all 5 versions, plus A: all ids sym [0,255] (every digit class) with 0..1 node / 0..1 child, plus B: ids sym [10,99] with 0..2 registry nodes (0..1 child each), plus C: 0..1 node with 0..2 children and types sym [0,40]; 3-line histories",
 }
 REALISED = ["battery / heartbeat payload texts are concrete class lists"]
 STUBS = ["RecTransport", "symbolic maps for Gateway.nodes / Node.children / Child.values / MessageBuffer (equality instead of hashing)", "Message/Node/Child __repr__ -> constant"]
@@ -31,7 +31,7 @@ def partitions(tier):
             sub = ""
             if cmd == 3:
                 sub = "b" if any(p["name"] == "step-%s-cmd3a" % v for p in parts) else "a"
-            parts.append({"name": "step-%s-cmd%d%s" % (v, cmd, sub), "fn": "sym_step", "version": v, "cmd": cmd, "sub": sub,
+            parts.append({"name": "step-%s-cmd%d%s" % (v, cmd, sub), "fn": "sym_step", "version": v, "cmd": cmd, "sub": sub, "sym_sleep": sub == "a",
                           "maxnodes": 1, "maxch": 1, "idlo": 10, "idhi": 99,
                           "tvhi": 9, "budget": 500 if q else 3000, "cost": 5 if cmd == 3 else 3})
             if not q:
@@ -39,7 +39,9 @@ def partitions(tier):
                 parts.append({"name": "stepA-%s-cmd%d%s" % (v, cmd, sub), "fn": "sym_step", "version": v, "cmd": cmd, "sub": sub,
                               "maxnodes": 1, "maxch": 1, "idlo": 0, "idhi": 255, "tvhi": 9, "budget": 3000, "cost": 9})
                 parts.append({"name": "stepB-%s-cmd%d%s" % (v, cmd, sub), "fn": "sym_step", "version": v, "cmd": cmd, "sub": sub,
-                              "maxnodes": 2, "maxch": 2, "idlo": 10, "idhi": 99, "tvhi": 40, "budget": 3000, "cost": 9})
+                              "maxnodes": 2, "maxch": 1, "idlo": 10, "idhi": 99, "tvhi": 9, "budget": 3000, "cost": 9})
+                parts.append({"name": "stepC-%s-cmd%d%s" % (v, cmd, sub), "fn": "sym_step", "version": v, "cmd": cmd, "sub": sub,
+                              "maxnodes": 1, "maxch": 2, "idlo": 10, "idhi": 99, "tvhi": 40, "budget": 3000, "cost": 9})
         for cmd in ((0, 1, 2, 4) if main else ()):
             parts.append({"name": "boundary-%s-cmd%d" % (v, cmd), "fn": "sym_step", "version": v, "cmd": cmd, "sub": "", "maxnodes": 1, "maxch": 1,
                           "idset": [0, 255], "cidset": [0, 254], "cevset": [0, 254, 255], "idlo": 0, "idhi": 255, "tvhi": 9, "budget": 500 if q else 2000, "cost": 3})
@@ -90,7 +92,10 @@ def sym_step(inp, part):
         p = ""
     else:
         t = inp.int("t", 0, part.get("tvhi", 40))
-        p = inp.str("p", 1, exclude=LINE_TERMINATORS, no_trailing_ws=True)
+        if cmd == 1 and inp.bool("same_as_stored"):
+            p = "v0"  # a set that repeats the stored value
+        else:
+            p = inp.str("p", 1, exclude=LINE_TERMINATORS, no_trailing_ws=True)
         if c == 255 and cmd != 0:
             raise Reject
         if cmd == 0 and c == 255 and n == 0:
